@@ -9,7 +9,8 @@ NOTE_COMMON = ('Trusted: rustc MIR lowering (nightly dump vs stable build, cross
 CHECKS = {
     'C09': dict(text='Bounded symbolic model checking of the real decode()/read_frame()/skip_bytes() MIR: for one fully symbolic frame '
                      '(every header field, stream length and split point free) the solver shows exact consumption, no silent stall, '
-                     'segmentation independence and parser reset on every path; parser reset extends the single-frame result to pipelines.',
+                     'segmentation independence and parser reset on every path; parser reset extends the single-frame result to pipelines; '
+                     'the real connection loop (Client::handle, BufWriter model) on 2-request pipelines under symbolic read sizes answers every loud request.',
                 design='5 C09', note=NOTE_COMMON + ' Decoder level: 1 symbolic frame, 2 deliveries; socket level: bounded reads.'),
 }
 STORE_NOTE = NOTE_COMMON + (' Store level: one command from an arbitrary well-formed state vector (2 keys), uninterpreted byte strings, '
@@ -32,7 +33,8 @@ CHECKS.update({
                      '0xffffffff, non-numeric error leaves the item unchanged, no arithmetic panic (overflow checks on).',
                 design='5 C07', note=STORE_NOTE + ' "decimal u64" is whatever str::parse::<u64> accepts (uninterpreted isnum/num on stored terms).'),
     'C08': dict(text='One-step refinement of delete (not found / key exists / removed, other keys untouched) and flush (immediate: nothing visible; '
-                     'delay n: every deadline becomes min(old, now+n)); later stores unaffected.', design='5 C08', note=STORE_NOTE),
+                     'delay n: every deadline becomes min(old, now+n)); later stores unaffected; in-solver BMC of set/get/flush histories with clock advances, '
+                     'all fields of the real MemoryStore threaded through the state vector.', design='5 C08', note=STORE_NOTE),
 })
 WIRE_NOTE = NOTE_COMMON + (' Wire level: one fully symbolic request frame (all 256 opcodes, all header fields) from an arbitrary well-formed '
              'store state through the real decode -> handle_request -> encode_message; key identity delegated to the map model.')
@@ -59,7 +61,8 @@ CHECKS.update({
                 design='5 C14', note=POLICY_NOTE + ' The concurrent form is explored under C16.'),
     'C15': dict(text='Hook form: one step from any state with accounted usage = stored total (and fitting under the limit) keeps them equal; '
                      'behavioural form: BMC of k-command histories in which the data always fits and a live item is evicted. Five accounting defects '
-                     'are known findings (role-based regions); anything outside them is a violation. Native replay reads the counter through the hook.',
+                     'are known findings (role-based regions); anything outside them is a violation; the usage never falls below the stored total (BMC, no '
+                     'known region) also under all schedules of two clients. Native replay reads the counter through the hook.',
                 design='5 C15', note=POLICY_NOTE),
 })
 SOCK_NOTE = NOTE_COMMON + (' Socket level: the real Client::handle / read_frame / skip_bytes coroutines over a socket model (a read returns a non-empty '
@@ -73,7 +76,8 @@ CHECKS.update({
                      'shutdown; the task always returns.', design='5 C12', note=SOCK_NOTE + ' Fresh server; quick m=2 / menu 8, thorough m=3 / menu 12.'),
     'C13': dict(text='Decoder: too large <=> body_length > limit for every valid header, header-only consumption; handler: 0x03 echo, nothing '
                      'changed; socket: read_frame + skip_bytes on [oversized frame][followers] with every read size symbolic return ItemTooLarge and '
-                     'leave the next unread position at exactly 24 + body_length, without panic, within the read bound.',
+                     'leave the next unread position at exactly 24 + body_length, without panic, within the read bound; client level: Client::handle on an '
+                     'oversized frame of every opcode class answers 0x03 and serves the follower.',
                 design='5 C13', note=SOCK_NOTE + ' <= 3 (quick) / 4 (thorough) reads; bodies needing more 64 KiB skip reads are outside the bound.'),
     'C17': dict(text='The spawned connection task (async block of MemcacheTcpServer::run) executed for every kind of ending (close, quit, quitq, '
                      'mid-request disconnect, reset, protocol error, oversized item, idle timeout, write error) at symbolic cut offsets and '
@@ -84,7 +88,8 @@ CHECKS.update({
     'C18': dict(text='The real connection loop on m complete requests followed by a fault (close / reset / silence after a symbolic number of bytes of the '
                      'next request, or a corrupted magic byte) with symbolic segmentation: exactly the complete requests are executed, once each and '
                      'in order (a prefix after a reset), never the incomplete one, responses in order, the task returns; natively a second connection '
-                     'is still served.', design='5 C18', note=SOCK_NOTE + ' Task isolation and the accept loop continuing are tokio\'s (trusted).'),
+                     'is still served; the accept loop of MemcacheTcpServer::run survives an error on an accepted socket (peer_addr failing, reset in the backlog).',
+                design='5 C18', note=SOCK_NOTE + ' Task isolation is tokio\'s (trusted).'),
 })
 CONC_NOTE = NOTE_COMMON + (' Concurrency: simulated threads execute the real MemcStore methods from MIR and are interleaved at every call into a shared '
              'object (DashMap methods, atomics; guards hold the shard lock until their drop); all schedules of the listed client programs are explored, '
@@ -104,7 +109,8 @@ CHECKS.update({
                      'some client can always step and every command returns.',
                 design='5 C16', note=CONC_NOTE + ' Same-shard worst case for every pair of keys; lock fairness not modelled.'),
     'C20': dict(text='(a) relational one-step check: every command gives the same result and map contents with and without the eviction layer while the limit '
-                     'is not reached; (b) symbolic execution of the server construction path: configured item limit / connection limit / store / policy are '
+                     'is not reached, linked to histories by a headroom BMC (accounted usage stays within reach of the bytes sent) and a relational BMC of both '
+                     'systems in one query; (b) symbolic execution of the server construction path: configured item limit / connection limit / store / policy are '
                      'the ones that reach the codec, the semaphore and every listener.',
                 design='5 C20', note=NOTE_COMMON + ' Not decidable here and not claimed: equivalence of tokio schedulers and worker counts, SO_REUSEPORT '
                                                    'distribution, ports, real-time ticking (no code of this crate to encode).'),
@@ -140,7 +146,7 @@ def main():
             'guard': '--cfg memcrs_verif',
             'enable': 'RUSTFLAGS="--cfg memcrs_verif" (set by mirse/prepare.py for the MIR dump and the replay driver build)',
             'baseline_off_cmd': 'cd /repo && cargo test --workspace --no-fail-fast --offline',
-            'source_commits': ['6e0d0f8'],
+            'source_commits': ['6e0d0f8', 'd665fb0', '64d4a7f'],
             'add_only': True,
         },
         'engines': [{'name': 'mirse', 'path': '/verif/mirse', 'serves_properties': sorted(CHECKS),
